@@ -7,7 +7,7 @@ EXTENDS Integers, Sequences, Json, TLC
 
 VARIABLE sc
 Pos == 0..9                     \* relative position of a boundary inside the element (tenths)
-Gaps == 0..2
+Gaps == {0, 1, 2, 17, 40}        \* (line breaks; also far more than any fixed buffer of blanks or breaks would hold)
 Comments == {"none", "line", "block1", "block2", "block3"}
 Families == {"oneline", "tokenperline", "blanklines", "crlf", "asis"}
 
